@@ -219,3 +219,421 @@ Proof.
   destruct (replay_rights [] (desc_by r_from (hist_rights_raw evs g))) as [rs|] eqn:H3; [|discriminate].
   repeat split; [eapply replay_users_desc_ok|eapply replay_users_desc_ok|eapply replay_rights_desc_ok]; eauto.
 Qed.
+
+(* ------------------------------------------------------------------ class 1 of known_C10 => reload fails *)
+Definition groups_known (evs : list event) : Prop :=
+  forall ev, In ev evs ->
+    match ev with
+    | EvUser g _ _ _ | EvUAdmin g _ _ _ | EvRight g _ _ _ _ => In g (groups evs)
+    | _ => True
+    end.
+
+Lemma pk_order_flat_map {B C} (F : B -> list (N * C)) (l : list B) :
+  pk_order (flat_map F l) = flat_map (fun x => map snd (F x)) l.
+Proof. unfold pk_order. induction l as [|x tl IH]; simpl; [reflexivity|]. rewrite map_app, IH. reflexivity. Qed.
+
+Lemma hist_admins_eq evs : hist_admins evs = admin_users (map snd evs).
+Proof.
+  unfold hist_admins, admin_users. rewrite pk_order_flat_map.
+  induction evs as [|[i ev] tl IH]; simpl; [reflexivity|]. rewrite IH. destruct ev; reflexivity.
+Qed.
+Lemma hist_users_eq evs g : hist_users evs g = group_users (map snd evs) g.
+Proof.
+  unfold hist_users, group_users. rewrite pk_order_flat_map.
+  induction evs as [|[i ev] tl IH]; simpl; [reflexivity|]. rewrite IH. destruct ev; try reflexivity.
+  simpl. destruct (N.eqb g0 g); reflexivity.
+Qed.
+Lemma hist_uadmins_eq evs g : hist_uadmins evs g = group_uadmins (map snd evs) g.
+Proof.
+  unfold hist_uadmins, group_uadmins. rewrite pk_order_flat_map.
+  induction evs as [|[i ev] tl IH]; simpl; [reflexivity|]. rewrite IH. destruct ev; try reflexivity.
+  simpl. destruct (N.eqb g0 g); reflexivity.
+Qed.
+Definition raw_rights (evs : list event) (g : uid) : list eright :=
+  flat_map (fun ev => match ev with EvRight g' e d s a => if N.eqb g' g then [{| r_from := d; r_ent := e; r_self := s; r_all := a |}] else [] | _ => [] end) evs.
+Lemma hist_rights_eq evs g : hist_rights_raw evs g = raw_rights (map snd evs) g.
+Proof.
+  unfold hist_rights_raw, raw_rights. rewrite pk_order_flat_map.
+  induction evs as [|[i ev] tl IH]; simpl; [reflexivity|]. rewrite IH. destruct ev; try reflexivity.
+  simpl. destruct (N.eqb g0 g); reflexivity.
+Qed.
+
+(* entries of the history, seen from the slot list of known_C10 *)
+Lemma in_admin_users evs u : In u (admin_users evs) <-> In (EvAdmin (u_key u) (u_date u) (u_enabled u)) evs.
+Proof.
+  unfold admin_users. rewrite in_flat_map. split.
+  - intros (ev & Hin & Hu). destruct ev; simpl in Hu; try contradiction. destruct Hu as [<-|[]]. exact Hin.
+  - intros H. eexists; split; [exact H|]. simpl. left. destruct u; reflexivity.
+Qed.
+Lemma in_group_users evs g u : In u (group_users evs g) <-> In (EvUser g (u_key u) (u_date u) (u_enabled u)) evs.
+Proof.
+  unfold group_users. rewrite in_flat_map. split.
+  - intros (ev & Hin & Hu). destruct ev; simpl in Hu; try contradiction.
+    destruct (N.eqb g0 g) eqn:He; [|contradiction]. apply N.eqb_eq in He. subst. destruct Hu as [<-|[]]. exact Hin.
+  - intros H. eexists; split; [exact H|]. simpl. rewrite N.eqb_refl. left. destruct u; reflexivity.
+Qed.
+Lemma in_group_uadmins evs g u : In u (group_uadmins evs g) <-> In (EvUAdmin g (u_key u) (u_date u) (u_enabled u)) evs.
+Proof.
+  unfold group_uadmins. rewrite in_flat_map. split.
+  - intros (ev & Hin & Hu). destruct ev; simpl in Hu; try contradiction.
+    destruct (N.eqb g0 g) eqn:He; [|contradiction]. apply N.eqb_eq in He. subst. destruct Hu as [<-|[]]. exact Hin.
+  - intros H. eexists; split; [exact H|]. simpl. rewrite N.eqb_refl. left. destruct u; reflexivity.
+Qed.
+Lemma in_raw_rights evs g r : In r (raw_rights evs g) <-> In (EvRight g (r_ent r) (r_from r) (r_self r) (r_all r)) evs.
+Proof.
+  unfold raw_rights. rewrite in_flat_map. split.
+  - intros (ev & Hin & Hu). destruct ev; simpl in Hu; try contradiction.
+    destruct (N.eqb g0 g) eqn:He; [|contradiction]. apply N.eqb_eq in He. subst. destruct Hu as [<-|[]]. exact Hin.
+  - intros H. eexists; split; [exact H|]. simpl. rewrite N.eqb_refl. left. destruct r; reflexivity.
+Qed.
+
+Lemma slot_eqb_eq a b : slot_eqb a b = true <-> a = b.
+Proof.
+  destruct a as [[a1 a2] a3], b as [[b1 b2] b3]. unfold slot_eqb. simpl.
+  rewrite !andb_true_iff, !N.eqb_eq. split; [intros [[-> ->] ->]; reflexivity|intros H; inversion H; auto].
+Qed.
+
+Lemma two_dates_false l : two_dates l = false ->
+  forall s d d', In (s, d) l -> In (s, d') l -> d = d'.
+Proof.
+  induction l as [|[k0 d0] tl IH]; simpl; intros H s d d' H1 H2; [contradiction|].
+  apply orb_false_iff in H. destruct H as [Hex Htl].
+  assert (Hno : forall d1, In (k0, d1) tl -> d1 = d0).
+  { intros d1 Hin. rewrite <- not_true_iff_false in Hex. destruct (Z.eq_dec d1 d0) as [|Hne]; [assumption|].
+    exfalso. apply Hex. apply existsb_exists. exists (k0, d1). split; [exact Hin|]. simpl.
+    rewrite (proj2 (slot_eqb_eq k0 k0) eq_refl). simpl. apply negb_true_iff. apply Z.eqb_neq. exact Hne. }
+  destruct H1 as [H1|H1]; destruct H2 as [H2|H2].
+  - inversion H1; inversion H2; subst. reflexivity.
+  - inversion H1; subst. symmetry. apply Hno. exact H2.
+  - inversion H2; subst. apply Hno. exact H1.
+  - eapply IH; eauto.
+Qed.
+Lemma two_dates_true l s d d' : In (s, d) l -> In (s, d') l -> d <> d' -> two_dates l = true.
+Proof.
+  intros H1 H2 Hne. destruct (two_dates l) eqn:Ht; [reflexivity|].
+  exfalso. apply Hne. eapply two_dates_false; eauto.
+Qed.
+
+Lemma in_entry_keys evs s d :
+  In (s, d) (entry_keys evs) <->
+  exists ev, In ev evs /\
+    match ev with
+    | EvGroup _ => False
+    | EvAdmin k d' _ => s = (0, 0, k)%N /\ d = d'
+    | EvUser g k d' _ => s = (1, g, k)%N /\ d = d'
+    | EvUAdmin g k d' _ => s = (2, g, k)%N /\ d = d'
+    | EvRight g e d' _ _ => s = (3, g, e)%N /\ d = d'
+    end.
+Proof.
+  unfold entry_keys. rewrite in_flat_map. split.
+  - intros (ev & Hin & H). exists ev. split; [exact Hin|]. destruct ev; simpl in H; try contradiction;
+      destruct H as [H|[]]; inversion H; auto.
+  - intros (ev & Hin & H). exists ev. split; [exact Hin|]. destruct ev; simpl; try contradiction;
+      destruct H as [-> ->]; left; reflexivity.
+Qed.
+
+(* every history that lies in class 1 of known_C10 cannot be reloaded *)
+Theorem class1_reload_fails evs :
+  groups_known (map snd evs) -> two_dates (entry_keys (map snd evs)) = true -> reload evs = None.
+Proof.
+  intros Hg Ht. destruct (reload evs) as [r|] eqn:Hr; [exfalso|reflexivity].
+  destruct (reload_requires_one_date evs r Hr) as [Had Hgr].
+  assert (Hf : two_dates (entry_keys (map snd evs)) = false); [|congruence].
+  clear Ht. destruct (two_dates (entry_keys (map snd evs))) eqn:Ht; [exfalso|reflexivity].
+  (* find the two entries *)
+  assert (Hex : exists s d d', In (s, d) (entry_keys (map snd evs)) /\ In (s, d') (entry_keys (map snd evs)) /\ d <> d').
+  { clear - Ht. induction (entry_keys (map snd evs)) as [|[k0 d0] tl IH]; simpl in Ht; [discriminate|].
+    apply orb_true_iff in Ht. destruct Ht as [Ht|Ht].
+    - apply existsb_exists in Ht. destruct Ht as ([k1 d1] & Hin & Hp). simpl in Hp.
+      apply andb_true_iff in Hp. destruct Hp as [Hk Hd]. apply slot_eqb_eq in Hk. subst k1.
+      apply negb_true_iff, Z.eqb_neq in Hd. exists k0, d0, d1. simpl. auto.
+    - destruct (IH Ht) as (s & d & d' & H1 & H2 & H3). exists s, d, d'. simpl. auto. }
+  destruct Hex as (s & d & d' & H1 & H2 & Hne).
+  apply in_entry_keys in H1. apply in_entry_keys in H2.
+  destruct H1 as (e1 & Hi1 & M1). destruct H2 as (e2 & Hi2 & M2).
+  rewrite hist_admins_eq in Had.
+  destruct e1 as [?|k1 d1 b1|g1 k1 d1 b1|g1 k1 d1 b1|g1 x1 d1 s1 a1]; try contradiction; destruct M1 as [-> ->];
+  destruct e2 as [?|k2 d2 b2|g2 k2 d2 b2|g2 k2 d2 b2|g2 x2 d2 s2 a2]; try contradiction; destruct M2 as [M2 ->]; inversion M2; subst.
+  - apply Hne. apply (Had {| u_key := k2; u_date := d1; u_enabled := b1 |} {| u_key := k2; u_date := d2; u_enabled := b2 |});
+      try apply in_admin_users; simpl; auto.
+  - pose proof (Hg _ Hi1) as Hgin. simpl in Hgin. destruct (Hgr _ Hgin) as (Hu & _ & _). rewrite hist_users_eq in Hu.
+    apply Hne. apply (Hu {| u_key := k2; u_date := d1; u_enabled := b1 |} {| u_key := k2; u_date := d2; u_enabled := b2 |});
+      try apply in_group_users; simpl; auto.
+  - pose proof (Hg _ Hi1) as Hgin. simpl in Hgin. destruct (Hgr _ Hgin) as (_ & Hu & _). rewrite hist_uadmins_eq in Hu.
+    apply Hne. apply (Hu {| u_key := k2; u_date := d1; u_enabled := b1 |} {| u_key := k2; u_date := d2; u_enabled := b2 |});
+      try apply in_group_uadmins; simpl; auto.
+  - pose proof (Hg _ Hi1) as Hgin. simpl in Hgin. destruct (Hgr _ Hgin) as (_ & _ & Hu). rewrite hist_rights_eq in Hu.
+    apply Hne. apply (Hu {| r_from := d1; r_ent := x2; r_self := s1; r_all := a1 |} {| r_from := d2; r_ent := x2; r_self := s2; r_all := a2 |});
+      try apply in_raw_rights; simpl; auto.
+Qed.
+
+(* ------------------------------------------------------------------ outside the known classes: reload = live *)
+Definition leq (l l' : list user) : Prop := forall k d, lookup_user l k d = lookup_user l' k d.
+Definition req (l l' : list eright) : Prop := forall e d, lookup_right l e d = lookup_right l' e d.
+Definition aequiv (a a' : auth) : Prop :=
+  a_id a = a_id a' /\ leq (a_users a) (a_users a') /\ leq (a_uadmins a) (a_uadmins a') /\ req (a_rights a) (a_rights a').
+
+Lemma existsb_Forall2 {B C} (f : B -> bool) (g : C -> bool) l l' :
+  Forall2 (fun a a' => f a = g a') l l' -> existsb f l = existsb g l'.
+Proof. induction 1 as [|a a' l l' H _ IH]; simpl; [reflexivity|]. rewrite H, IH. reflexivity. Qed.
+
+Lemma Forall2_imp {B C} (P Q : B -> C -> Prop) l l' :
+  (forall a b, P a b -> Q a b) -> Forall2 P l l' -> Forall2 Q l l'.
+Proof. intros H. induction 1; constructor; auto. Qed.
+
+Lemma enabled_at_leq l l' k d : leq l l' -> enabled_at l k d = enabled_at l' k d.
+Proof. intros H. unfold enabled_at. rewrite H. reflexivity. Qed.
+Lemma auth_can_req a a' e d t : req (a_rights a) (a_rights a') -> auth_can a e d t = auth_can a' e d t.
+Proof. intros H. unfold auth_can. rewrite !H. reflexivity. Qed.
+
+Lemma decide_equiv r r' p :
+  leq (rm_admins r) (rm_admins r') -> Forall2 aequiv (rm_auths r) (rm_auths r') -> decide r p = decide r' p.
+Proof.
+  intros Ha Hf. destruct p as [[k e] d]. unfold decide.
+  assert (Hadm : is_admin r k d = is_admin r' k d) by (apply enabled_at_leq; exact Ha).
+  assert (Hcan : forall t, can r k e d t = can r' k e d t).
+  { intros t. unfold can. apply existsb_Forall2. eapply Forall2_imp; [|exact Hf].
+    intros a a' (_ & Hu & Hua & Hr). cbv beta. rewrite Hadm. unfold auth_user_valid.
+    rewrite (enabled_at_leq _ _ k d Hu), (enabled_at_leq _ _ k d Hua), (auth_can_req a a' e d t Hr). reflexivity. }
+  rewrite !Hcan, Hadm. f_equal. f_equal. f_equal. f_equal; [|f_equal].
+  - unfold is_user_valid_at. rewrite Hadm. f_equal. f_equal. apply existsb_Forall2. eapply Forall2_imp; [|exact Hf].
+    intros a a' (_ & Hu & Hua & _). cbv beta. unfold auth_user_valid.
+    rewrite (enabled_at_leq _ _ k d Hu), (enabled_at_leq _ _ k d Hua). reflexivity.
+  - f_equal. apply existsb_Forall2. eapply Forall2_imp; [|exact Hf].
+    intros a a' (_ & _ & Hua & _). cbv beta. unfold can_admin_users. apply enabled_at_leq. exact Hua.
+Qed.
+
+(* looking a key up only sees the entries of that key; a stable sort by date does not move them
+   when they all carry one date *)
+Lemma lookup_user_filter l k d :
+  lookup_user l k d = find (fun u => Z.leb (u_date u) d) (filter (fun u => N.eqb (u_key u) k) l).
+Proof. unfold lookup_user. apply find_and_filter. Qed.
+Lemma lookup_right_filter l e d :
+  lookup_right l e d = find (fun r => Z.leb (r_from r) d) (filter (fun r => N.eqb (r_ent r) e) l).
+Proof. unfold lookup_right. apply find_and_filter. Qed.
+
+Lemma leq_desc L : one_date_users L -> leq (rev (desc_by u_date L)) (rev L).
+Proof.
+  intros H1 k d. rewrite !lookup_user_filter, !filter_rev. unfold desc_by.
+  set (c := match find (fun u => N.eqb (u_key u) k) L with Some u => - u_date u | None => 0 end).
+  rewrite (filter_sort_by user (fun x => - u_date x) (fun u => N.eqb (u_key u) k) c); [reflexivity|].
+  intros y Hy Hk. apply N.eqb_eq in Hk. unfold c.
+  destruct (find (fun u => N.eqb (u_key u) k) L) as [u|] eqn:Hf.
+  - apply find_some in Hf. destruct Hf as [Hin He]. apply N.eqb_eq in He.
+    rewrite (H1 y u Hy Hin); [reflexivity|congruence].
+  - eapply find_none in Hf; [|exact Hy]. apply N.eqb_neq in Hf. contradiction.
+Qed.
+Lemma req_desc L : one_date_rights L -> req (rev (desc_by r_from L)) (rev L).
+Proof.
+  intros H1 e d. rewrite !lookup_right_filter, !filter_rev. unfold desc_by.
+  set (c := match find (fun r => N.eqb (r_ent r) e) L with Some u => - r_from u | None => 0 end).
+  rewrite (filter_sort_by eright (fun x => - r_from x) (fun r => N.eqb (r_ent r) e) c); [reflexivity|].
+  intros y Hy Hk. apply N.eqb_eq in Hk. unfold c.
+  destruct (find (fun r => N.eqb (r_ent r) e) L) as [u|] eqn:Hf.
+  - apply find_some in Hf. destruct Hf as [Hin He]. apply N.eqb_eq in He.
+    rewrite (H1 y u Hy Hin); [reflexivity|congruence].
+  - eapply find_none in Hf; [|exact Hy]. apply N.eqb_neq in Hf. contradiction.
+Qed.
+
+Lemma replay_users_one_date L : one_date_users L -> replay_users [] (desc_by u_date L) = Some (rev (desc_by u_date L)).
+Proof.
+  intros H. rewrite replay_users_greplay, greplay_same_dates; [rewrite app_nil_r; reflexivity|].
+  intros x y Hx Hy. rewrite app_nil_r in Hx, Hy. unfold desc_by in Hx, Hy. apply sort_by_in in Hx, Hy. apply H; assumption.
+Qed.
+Lemma replay_rights_one_date L : one_date_rights L -> replay_rights [] (desc_by r_from L) = Some (rev (desc_by r_from L)).
+Proof.
+  intros H. rewrite replay_rights_greplay, greplay_same_dates; [rewrite app_nil_r; reflexivity|].
+  intros x y Hx Hy. rewrite app_nil_r in Hx, Hy. unfold desc_by in Hx, Hy. apply sort_by_in in Hx, Hy. apply H; assumption.
+Qed.
+
+(* outside class 1 every list of the history carries one date per key *)
+Lemma no_class1_admins evs : two_dates (entry_keys evs) = false -> one_date_users (admin_users evs).
+Proof.
+  intros Ht x y Hx Hy Hk. apply in_admin_users in Hx, Hy.
+  apply (two_dates_false _ Ht (0, 0, u_key x)%N); apply in_entry_keys.
+  - eexists; split; [exact Hx|]. simpl; auto.
+  - eexists; split; [exact Hy|]. simpl; rewrite Hk; auto.
+Qed.
+Lemma no_class1_users evs g : two_dates (entry_keys evs) = false -> one_date_users (group_users evs g).
+Proof.
+  intros Ht x y Hx Hy Hk. apply in_group_users in Hx, Hy.
+  apply (two_dates_false _ Ht (1, g, u_key x)%N); apply in_entry_keys.
+  - eexists; split; [exact Hx|]. simpl; auto.
+  - eexists; split; [exact Hy|]. simpl; rewrite Hk; auto.
+Qed.
+Lemma no_class1_uadmins evs g : two_dates (entry_keys evs) = false -> one_date_users (group_uadmins evs g).
+Proof.
+  intros Ht x y Hx Hy Hk. apply in_group_uadmins in Hx, Hy.
+  apply (two_dates_false _ Ht (2, g, u_key x)%N); apply in_entry_keys.
+  - eexists; split; [exact Hx|]. simpl; auto.
+  - eexists; split; [exact Hy|]. simpl; rewrite Hk; auto.
+Qed.
+Lemma no_class1_rights evs g : two_dates (entry_keys evs) = false -> one_date_rights (raw_rights evs g).
+Proof.
+  intros Ht x y Hx Hy Hk. apply in_raw_rights in Hx, Hy.
+  apply (two_dates_false _ Ht (3, g, r_ent x)%N); apply in_entry_keys.
+  - eexists; split; [exact Hx|]. simpl; auto.
+  - eexists; split; [exact Hy|]. simpl; rewrite Hk; auto.
+Qed.
+
+(* outside class 2 the stored flags are the normalised ones *)
+Definition normalised (evs : list event) : bool :=
+  forallb (fun ev => match ev with EvRight _ _ _ s a => implb a s | _ => true end) evs.
+Lemma raw_rights_normalised evs g : normalised evs = true -> raw_rights evs g = group_rights evs g.
+Proof.
+  unfold normalised, raw_rights, group_rights. induction evs as [|ev tl IH]; simpl; intros H; [reflexivity|].
+  apply andb_true_iff in H. destruct H as [Hev Htl]. rewrite (IH Htl). f_equal.
+  destruct ev; try reflexivity. destruct (N.eqb g0 g); [|reflexivity].
+  unfold mk_right. destruct s, a; simpl in *; try reflexivity; discriminate.
+Qed.
+
+Lemma reload_auth_one_date evs g :
+  two_dates (entry_keys (map snd evs)) = false ->
+  reload_auth evs g = Some {| a_id := g;
+                              a_users := rev (desc_by u_date (hist_users evs g));
+                              a_rights := rev (desc_by r_from (hist_rights_raw evs g));
+                              a_uadmins := rev (desc_by u_date (hist_uadmins evs g)) |}.
+Proof.
+  intros Ht. unfold reload_auth.
+  rewrite replay_users_one_date by (rewrite hist_users_eq; apply no_class1_users; exact Ht).
+  rewrite replay_users_one_date by (rewrite hist_uadmins_eq; apply no_class1_uadmins; exact Ht).
+  rewrite replay_rights_one_date by (rewrite hist_rights_eq; apply no_class1_rights; exact Ht).
+  reflexivity.
+Qed.
+
+Lemma reload_auths_equiv evs (auths : list auth) :
+  two_dates (entry_keys (map snd evs)) = false -> normalised (map snd evs) = true ->
+  Forall (auth_rep (map snd evs)) auths ->
+  exists aus, reload_auths evs (map a_id auths) = Some aus /\ Forall2 aequiv aus auths.
+Proof.
+  intros Ht Hn. induction 1 as [|a tl Ha _ IH]; simpl; [exists []; split; [reflexivity|constructor]|].
+  destruct IH as (aus & Hr & Hf). rewrite (reload_auth_one_date evs (a_id a) Ht), Hr.
+  eexists; split; [reflexivity|]. constructor; [|exact Hf].
+  destruct Ha as (R1 & R2 & R3). unfold aequiv. simpl.
+  split; [reflexivity|]. split; [|split].
+  - rewrite R1, hist_users_eq. apply leq_desc. apply no_class1_users. exact Ht.
+  - rewrite R2, hist_uadmins_eq. apply leq_desc. apply no_class1_uadmins. exact Ht.
+  - rewrite R3, hist_rights_eq, <- (raw_rights_normalised _ _ Hn). apply req_desc. apply no_class1_rights. exact Ht.
+Qed.
+
+(* every step accepted live = the strict replay succeeds *)
+Lemma build_from_all_ok evs : forall r,
+  forallb (fun b => b) (snd (build_from r evs)) = true -> build_strict r evs = Some (fst (build_from r evs)).
+Proof.
+  induction evs as [|ev tl IH]; simpl; intros r H; [reflexivity|].
+  destruct (apply_event r ev) as [r'|] eqn:Ha.
+  - specialize (IH r'). destruct (build_from r' tl) as [rf oks]. simpl in *. apply IH. exact H.
+  - destruct (build_from r tl) as [rf oks]. simpl in H. discriminate.
+Qed.
+
+Theorem reload_outside_known evs rl :
+  build_strict (empty_room 1%N) (map snd evs) = Some rl ->
+  two_dates (entry_keys (map snd evs)) = false ->
+  normalised (map snd evs) = true ->
+  exists r, reload evs = Some r /\ forall probes, decisions r probes = decisions rl probes.
+Proof.
+  intros Hb Ht Hn.
+  pose proof (build_strict_Rep (map snd evs) [] (empty_room 1%N) rl (Rep_empty 1%N) Hb) as HR. simpl in HR.
+  destruct HR as (Had & Hids & Hrep & _ & _ & _).
+  destruct (reload_auths_equiv evs (rm_auths rl) Ht Hn Hrep) as (aus & Hr & Hf).
+  unfold reload. rewrite <- Hids, Hr.
+  rewrite replay_users_one_date by (rewrite hist_admins_eq; apply no_class1_admins; exact Ht).
+  eexists; split; [reflexivity|]. intros probes. unfold decisions.
+  apply flat_map_ext. intros p. apply decide_equiv; simpl.
+  - rewrite Had, hist_admins_eq. apply leq_desc. apply no_class1_admins. exact Ht.
+  - exact Hf.
+Qed.
+
+(* ------------------------------------------------------------------ statements about what the harness evaluates *)
+From DV Require Import RoomNodeP.
+
+Lemma probe_spec_decide evs p : probe_spec evs p = decide_spec evs p.
+Proof. destruct p as [[k e] d]. reflexivity. Qed.
+
+Definition all_accepted (steps : list (list ievent)) : Prop :=
+  forallb (fun b => b) (snd (live steps)) = true.
+
+(* (a) the live room decides what the history grants *)
+Theorem live_is_history steps probes :
+  all_accepted steps ->
+  decisions (fst (live steps)) probes = flat_map (probe_spec (events_of steps)) probes.
+Proof.
+  unfold all_accepted, live. intros H.
+  pose proof (build_from_all_ok (events_of steps) (empty_room 1%N) H) as Hb.
+  pose proof (build_strict_Rep (events_of steps) [] (empty_room 1%N) _ (Rep_empty 1%N) Hb) as HR. simpl in HR.
+  rewrite (Rep_decisions _ _ probes HR). apply flat_map_ext. intros p. symmetry. apply probe_spec_decide.
+Qed.
+
+(* (b) the reload part of run_C10, outside classes 1 and 2 *)
+Theorem reload_part_outside_known steps probes :
+  all_accepted steps ->
+  two_dates (entry_keys (events_of steps)) = false ->
+  normalised (events_of steps) = true ->
+  dec_opt (reload (concat steps)) probes = 1 :: decisions (fst (live steps)) probes.
+Proof.
+  unfold all_accepted, live, events_of. intros H Ht Hn.
+  pose proof (build_from_all_ok _ _ H) as Hb.
+  destruct (reload_outside_known (concat steps) _ Hb Ht Hn) as (r & Hr & Hd).
+  rewrite Hr. simpl. rewrite Hd. reflexivity.
+Qed.
+
+(* (c) restart: the start of an instance on its own data succeeds exactly outside class 1 *)
+Lemma reload_succeeds evs :
+  two_dates (entry_keys (map snd evs)) = false -> exists r, reload evs = Some r.
+Proof.
+  intros Ht. unfold reload.
+  assert (Ha : forall gs, exists aus, reload_auths evs gs = Some aus).
+  { induction gs as [|g tl [aus IH]]; simpl; [eauto|]. rewrite (reload_auth_one_date evs g Ht), IH. eauto. }
+  destruct (Ha (groups (map snd evs))) as [aus ->].
+  rewrite replay_users_one_date by (rewrite hist_admins_eq; apply no_class1_admins; exact Ht). eauto.
+Qed.
+Theorem restart_iff evs :
+  groups_known (map snd evs) ->
+  ((exists r, reload evs = Some r) <-> two_dates (entry_keys (map snd evs)) = false).
+Proof.
+  intros Hg. split.
+  - intros [r Hr]. destruct (two_dates (entry_keys (map snd evs))) eqn:Ht; [|reflexivity].
+    rewrite (class1_reload_fails evs Hg Ht) in Hr. discriminate.
+  - apply reload_succeeds.
+Qed.
+
+(* ------------------------------------------------------------------ closed witnesses (replayed by the harness as directed cases) *)
+Definition w_probes : list probe := [(1, 1, 20000); (2, 1, 6000); (2, 1, 20000); (3, 1, 20000)]%N%Z.
+(* class 1: a user enabled, later disabled *)
+Definition w1 : c10case :=
+  CRestart 1%N [[(100, EvAdmin 1 5000 true); (0, EvGroup 10); (101, EvRight 10 0 5000 true false); (102, EvUser 10 2 5000 true)];
+                [(103, EvUser 10 2 8000 false)]]%N w_probes.
+Definition w1h : c10case :=
+  CHist 1%N [[(100, EvAdmin 1 5000 true); (0, EvGroup 10); (101, EvRight 10 0 5000 true false); (102, EvUser 10 2 5000 true)];
+             [(103, EvUser 10 2 8000 false)]]%N w_probes.
+(* class 2: a right with all rows but not own rows *)
+Definition w2 : c10case :=
+  CHist 1%N [[(100, EvAdmin 1 5000 true); (0, EvGroup 10); (101, EvRight 10 1 5000 false true); (102, EvUser 10 2 5000 true)]]%N w_probes.
+(* class 3: enabled and disabled in the same millisecond, the later row has the smaller id *)
+Definition w3 : c10case :=
+  CHist 1%N [[(100, EvAdmin 1 5000 true); (0, EvGroup 10); (101, EvRight 10 0 5000 true false); (102, EvUser 10 2 5000 true)];
+             [(104, EvUser 10 3 8000 true)]; [(103, EvUser 10 3 8000 false)]]%N w_probes.
+(* class 4: a later step creates a group with a user in it *)
+Definition w4 : c10case :=
+  CHist 1%N [[(100, EvAdmin 1 5000 true); (0, EvGroup 10); (101, EvRight 10 0 5000 true false); (102, EvUser 10 2 5000 true)];
+             [(0, EvGroup 11); (103, EvRight 11 1 8000 true true); (104, EvUser 11 3 8000 true)]]%N w_probes.
+(* no class: one entry per key, several steps, a second group without users *)
+Definition w0 : c10case :=
+  CHist 1%N [[(100, EvAdmin 1 5000 true); (0, EvGroup 10); (101, EvRight 10 0 5000 true false); (102, EvUser 10 2 5000 true)];
+             [(103, EvUser 10 3 8000 true); (104, EvUAdmin 10 2 8000 true)];
+             [(0, EvGroup 11); (105, EvRight 11 1 9000 true true)]; [(106, EvUser 11 3 9500 true)]]%N w_probes.
+
+Lemma refuted_1 : known_C10 w1 = [1] /\ spec_C10 w1 (run_C10 w1) = false /\
+                  known_C10 w1h = [1] /\ spec_C10 w1h (run_C10 w1h) = false.
+Proof. vm_compute. auto. Qed.
+Lemma refuted_2 : known_C10 w2 = [2] /\ spec_C10 w2 (run_C10 w2) = false.
+Proof. vm_compute. auto. Qed.
+Lemma refuted_3 : known_C10 w3 = [3] /\ spec_C10 w3 (run_C10 w3) = false.
+Proof. vm_compute. auto. Qed.
+Lemma refuted_4 : known_C10 w4 = [4] /\ spec_C10 w4 (run_C10 w4) = false.
+Proof. vm_compute. auto. Qed.
+Lemma nonvacuous_0 :
+  known_C10 w0 = [] /\ spec_C10 w0 (run_C10 w0) = true /\
+  all_accepted (case_steps w0) /\ two_dates (entry_keys (events_of (case_steps w0))) = false /\
+  normalised (events_of (case_steps w0)) = true.
+Proof. vm_compute. auto. Qed.
